@@ -267,7 +267,7 @@ func RunC04(tier string, seed int64, outDir string, replay string) (*core.Result
 	res.Rule = "random programs of the supported fragment (plus hazard families) are generated and compiled with a driver; every query/mutation helper is called by reflection with random argument values of its parameter types (nil and non-nil pointers, nil / empty / non-empty slices at every depth, every enum constant, input objects to depth 5) against a recording client; the recorded request is judged: exactly one request, operation name and document, variables = the JSON the documentation promises for the arguments (keys, GraphQL names, null for nil, omitempty exactly when empty), validator.VariableValues coerces them when the arguments are valid values, user marshalers called once per non-nil value; non-trivial = every call of an operation with variables; distinct by (program, operation, arguments)"
 	nProg, nCalls := 36, 8
 	if tier == "thorough" {
-		nProg, nCalls = 200, 24
+		nProg, nCalls = 500, 24
 	}
 	rng := core.NewRng(seed)
 	var cases []*conv.Case
